@@ -9,6 +9,9 @@
 //! A fresh `SingletonHolder<Payload>` is used for every schedule.
 //!
 //! case:   A <prog>            every SC interleaving of the program (depth-first, lowest thread first)
+//!         G <prog> <sched>    exactly this schedule, in a fresh process, on the process-wide holder of cadence-macros
+//!                             (s<id> = set_global_default of a client whose sink knows the id, g = get_global_default,
+//!                             i = is_global_default_set)
 //!         S <prog> <sched>    exactly this schedule (string of thread digits; entries naming a thread
 //!                             that has finished are skipped and counted in `stuck`; when the string is
 //!                             exhausted the lowest runnable thread continues)
@@ -71,6 +74,8 @@ enum Res {
     Unit,
     Dbg,
     Get(Option<Arc<Payload>>),
+    /// get_global_default(): the id of the client returned (read off its sink) and the address of the Arc's content
+    GetG(Option<(u64, usize)>),
     IsSet(bool),
     Panic,
 }
@@ -89,6 +94,8 @@ struct Inner {
     generation: u64,
     quit: bool,
     holder: Option<Arc<SingletonHolder<Payload>>>,
+    /// the calls go to the process-wide holder of cadence-macros through its free functions (one schedule per process)
+    global: bool,
     results: Vec<Vec<Res>>,
     // one schedule
     status: Vec<St>,
@@ -241,7 +248,36 @@ fn install_tracer() {
     });
 }
 
-fn run_calls(calls: &[Call], holder: &SingletonHolder<Payload>) -> Vec<Res> {
+/// a sink that only says which client it belongs to
+struct IdSink(u64);
+
+thread_local! { static LAST_ID: Cell<u64> = Cell::new(u64::MAX); }
+
+impl cadence::MetricSink for IdSink {
+    fn emit(&self, metric: &str) -> std::io::Result<usize> {
+        LAST_ID.with(|l| l.set(self.0));
+        Ok(metric.len())
+    }
+}
+
+fn run_global_call(c: &Call) -> Res {
+    use cadence::Counted;
+    match c {
+        Call::Set(id) => {
+            cadence_macros::set_global_default(cadence::StatsdClient::from_sink("g", IdSink(*id)));
+            Res::Unit
+        }
+        Call::Get => Res::GetG(cadence_macros::get_global_default().ok().map(|c| {
+            LAST_ID.with(|l| l.set(u64::MAX));
+            let _ = c.count("k", 1);
+            (LAST_ID.with(|l| l.get()), Arc::as_ptr(&c) as usize)
+        })),
+        Call::IsSet => Res::IsSet(cadence_macros::is_global_default_set()),
+        Call::Dbg => panic!("the process-wide holder cannot be formatted from outside"),
+    }
+}
+
+fn run_calls(calls: &[Call], holder: Option<&SingletonHolder<Payload>>) -> Vec<Res> {
     let mut out = Vec::new();
     for (ci, c) in calls.iter().enumerate() {
         ROLE.with(|r| {
@@ -251,14 +287,16 @@ fn run_calls(calls: &[Call], holder: &SingletonHolder<Payload>) -> Vec<Res> {
             role.in_set.set(matches!(c, Call::Set(_)));
         });
         let r = crate::util::catch(|| match c {
+            _ if holder.is_none() => run_global_call(c),
             Call::Set(id) => {
+                let holder = holder.unwrap();
                 holder.set(Payload::new(*id));
                 Res::Unit
             }
-            Call::Get => Res::Get(holder.get()),
-            Call::IsSet => Res::IsSet(holder.is_set()),
+            Call::Get => Res::Get(holder.unwrap().get()),
+            Call::IsSet => Res::IsSet(holder.unwrap().is_set()),
             Call::Dbg => {
-                let text = format!("{:?}", holder);
+                let text = format!("{:?}", holder.unwrap());
                 std::hint::black_box(text.len());
                 Res::Dbg
             }
@@ -295,9 +333,9 @@ fn worker(tid: usize, calls: &[Call], sched: Arc<Sched>) {
                 break;
             }
             my_gen = g.generation;
-            g.holder.clone().unwrap()
+            if g.global { None } else { Some(g.holder.clone().unwrap()) }
         };
-        let out = run_calls(calls, &holder);
+        let out = run_calls(calls, holder.as_deref());
         drop(holder);
         let mut g = sched.m.lock().unwrap();
         g.results[tid] = out;
@@ -344,6 +382,7 @@ fn run_once(sched: &Arc<Sched>, prefix: &[usize], strict: bool) -> Exec {
     let mut g = sched.m.lock().unwrap();
     let n = g.status.len();
     // both public constructors: `new()` or the derived `Default`, the same one for every execution of a case
+    g.global = USE_GLOBAL.load(std::sync::atomic::Ordering::Relaxed);
     g.holder = Some(Arc::new(if USE_DEFAULT_CTOR.load(std::sync::atomic::Ordering::Relaxed) {
         SingletonHolder::default()
     } else {
@@ -387,6 +426,7 @@ fn run_once(sched: &Arc<Sched>, prefix: &[usize], strict: bool) -> Exec {
     let mut same = true;
     let mut intact = true;
     let mut first: Option<Arc<Payload>> = None;
+    let mut first_g: Option<usize> = None;
     let mut res_s = Vec::new();
     for th in &results {
         let mut v = Vec::new();
@@ -394,7 +434,21 @@ fn run_once(sched: &Arc<Sched>, prefix: &[usize], strict: bool) -> Exec {
             v.push(match r {
                 Res::Unit => "u".to_string(),
                 Res::Dbg => "d".to_string(),
-                Res::Get(None) => "n".to_string(),
+                Res::Get(None) | Res::GetG(None) => "n".to_string(),
+                Res::GetG(Some((id, ptr))) => {
+                    match first_g {
+                        None => first_g = Some(*ptr),
+                        Some(f) => {
+                            if f != *ptr {
+                                same = false;
+                            }
+                        }
+                    }
+                    if *id == u64::MAX {
+                        intact = false; // the client returned did not reach its sink
+                    }
+                    format!("v{}", id)
+                }
                 Res::Get(Some(a)) => {
                     if !a.intact() {
                         intact = false;
@@ -443,6 +497,7 @@ fn with_pool<R>(prog: &[Vec<Call>], body: impl FnOnce(&Arc<Sched>) -> R) -> R {
             generation: 0,
             quit: false,
             holder: None,
+            global: false,
             results: Vec::new(),
             status: vec![St::Done; n],
             next_ticket: 1,
@@ -502,6 +557,19 @@ fn parse_prog(s: &str) -> Vec<Vec<Call>> {
 }
 
 static USE_DEFAULT_CTOR: std::sync::atomic::AtomicBool = std::sync::atomic::AtomicBool::new(false);
+static USE_GLOBAL: std::sync::atomic::AtomicBool = std::sync::atomic::AtomicBool::new(false);
+
+/// runs in a fresh child process (`harness sgchild "<prog> <sched>"`): the program's calls go to the process-wide
+/// holder through set_global_default / get_global_default / is_global_default_set, under exactly this schedule
+pub fn child(arg: &str) -> String {
+    install_tracer();
+    USE_GLOBAL.store(true, std::sync::atomic::Ordering::Relaxed);
+    let t: Vec<&str> = arg.split_whitespace().collect();
+    let prog = parse_prog(t[0]);
+    let prefix: Vec<usize> = if t[1] == "-" { vec![] } else { t[1].bytes().map(|b| (b - b'0') as usize).collect() };
+    let ex = with_pool(&prog, |sched| run_once(sched, &prefix, false));
+    format!("n=1 {}", ex.entry)
+}
 
 pub fn run_case(line: &str) -> String {
     install_tracer();
@@ -547,6 +615,22 @@ pub fn run_case(line: &str) -> String {
             entries
             });
             format!("n={} {}", entries.len(), entries.join(";"))
+        }
+        ["G", prog, sched] => {
+            let exe = std::env::current_exe().expect("current_exe");
+            let o = std::process::Command::new(exe)
+                .arg("sgchild")
+                .arg(format!("{} {}", prog, sched))
+                .output()
+                .expect("spawn child");
+            if !o.status.success() {
+                return format!(
+                    "CHILD-FAILED {:?} {}",
+                    o.status.code(),
+                    String::from_utf8_lossy(&o.stderr).replace('\n', " ").chars().take(300).collect::<String>()
+                );
+            }
+            String::from_utf8_lossy(&o.stdout).trim().to_string()
         }
         ["S", prog, sched] => {
             let prog = parse_prog(prog);
